@@ -39,13 +39,13 @@ theorem blocks_refine_spec : C06_full := by
   cases hT : env[main]? with
   | none => rfl
   | some T =>
-    have hc := (hyp_all env ctx henv fuel).chain [main] T.layout (initSt T) none false 0
+    have hc := (hyp_all env ctx henv fuel).chain [main] T.layout (initSt T) none false 0 T.ae
       (initChainSt env main T hT (initSt T)) (henv.layout hT) (by simp)
     simp only []
     have hfr : (initSt T).frames = [[]] := rfl
     rw [hfr] at hc
     rw [← hc]
-    cases evalImpl env ctx fuel none false false 0 T.layout (initSt T) with
+    cases evalImpl env ctx fuel none false false 0 T.ae T.layout (initSt T) with
     | error e => rfl
     | ok r => rfl
 
@@ -81,22 +81,22 @@ example : render exEnv2 [] 8 2 = .error [.invalidOperation] := by decide +kernel
     definition are errors) and leaves block stacks, cursors and loaded set as they were. -/
 theorem block_renders_most_derived (env : Env) (ctx : Frame) (henv : EnvOK env)
     (D : Nat → List (List Item)) (hwf : WF D) (f : Nat) (cur : Option Nat) (k m : Nat)
-    (disc : Bool) (outer : Nat) (st : St) (hg : Good D cur true k st)
+    (disc : Bool) (outer : Nat) (ae : AE) (st : St) (hg : Good D cur true k st)
     (hm : ∀ n, cur = some n → n < m) :
-    callBlock (evalImpl env ctx f) disc outer m st =
-      liftS (specBlock (specAll env ctx f) D disc outer m st.frames) st :=
-  callBlock_sim (hyp_all env ctx henv f) D hwf cur k m disc outer st hg hm
+    callBlock (evalImpl env ctx f) disc outer ae m st =
+      liftS (specBlock (specAll env ctx f) D disc outer ae m st.frames) st :=
+  callBlock_sim (hyp_all env ctx henv f) D hwf cur k m disc outer ae st hg hm
 
 /-- `super()` inside the `k`-th definition of block `n` renders the `k+1`-st definition — the
     next one up the chain, skipping templates that do not define the block, since `defs` only
     lists definitions — wraps its errors in `EvalBlock`, and puts the cursor back; when there is
     no further definition it is an error, not empty output (`specSuper`). -/
 theorem super_goes_one_up (env : Env) (ctx : Frame) (henv : EnvOK env)
-    (D : Nat → List (List Item)) (hwf : WF D) (f n k : Nat) (disc : Bool) (outer : Nat) (st : St)
+    (D : Nat → List (List Item)) (hwf : WF D) (f n k : Nat) (disc : Bool) (outer : Nat) (ae : AE) (st : St)
     (hg : Good D (some n) true k st) :
-    performSuper (evalImpl env ctx f) (some n) disc outer st =
-      liftS (specSuper (specAll env ctx f) D (some (n, k)) disc outer st.frames) st :=
-  performSuper_sim (hyp_all env ctx henv f) D hwf n k disc outer st hg
+    performSuper (evalImpl env ctx f) (some n) disc outer ae st =
+      liftS (specSuper (specAll env ctx f) D (some (n, k)) disc outer ae st.frames) st :=
+  performSuper_sim (hyp_all env ctx henv f) D hwf n k disc outer ae st hg
 
 example : WF (defs exEnv [0, 1, 2]) := WF_defs exEnv (by decide) [0, 1, 2]
 example : Good (defs exEnv [0, 1, 2]) (some 0) true 0
@@ -137,7 +137,7 @@ theorem child_text_discarded (rd : Rd) (rec : Rec) (p post : List Item) (st : St
     stepItems rd rec (some p) post st = .ok ([], st, some p) :=
   post_plain_silent rd rec p post st h
 
-example : stepItems ⟨exEnv, [], none, false, false, 0⟩ (evalImpl exEnv [] 5) (some [])
+example : stepItems ⟨exEnv, [], none, false, false, 0, .none⟩ (evalImpl exEnv [] 5) (some [])
     [.text "<post0>", .callBlock 0] (initSt exEnv[0]) = .ok ([], initSt exEnv[0], some []) :=
   child_text_discarded _ _ _ _ _ rfl
 
@@ -166,11 +166,11 @@ example : ∃ st' l, loadBlocks exEnv 1 (initSt exEnv[0]) = .ok (st', l) ∧ st'
 /-- rendering terminates on its own: the recursion limit (`outer_stack_depth` + frames against
     `recursion_limit`, an include costing `INCLUDE_RECURSION_COST ≥ 1`) bounds every nest of
     blocks, `super()`s, includes, imports, loops and macro calls, and an inheritance chain has at
-    most `|env|` links; so with `(LIMIT - 1)·(|env| + 2) + |env| + 1` levels of model fuel — or
+    most `|env|` links; so with `(LIMIT - 1)·(|env| + 3) + |env| + 2` levels of model fuel — or
     more — the fuel is never what stops a render: the result is the output or a genuine error
     (cycle, missing template, recursion limit, …). -/
 theorem rendering_terminates (env : Env) (ctx : Frame) (henv : EnvOK env) (main fuel : Nat)
-    (hfuel : W env.length 2 + env.length + 1 ≤ fuel) :
+    (hfuel : W env.length 2 + env.length + 2 ≤ fuel) :
     ∀ e, render env ctx fuel main = .error e → Kind.recursion ∉ e := by
   rw [blocks_refine_spec env ctx fuel main henv]
   unfold specRender
@@ -178,11 +178,11 @@ theorem rendering_terminates (env : Env) (ctx : Frame) (henv : EnvOK env) (main 
   | none => intro e he; cases he; simp
   | some T =>
     have hl : 0 + ([[]] : List Frame).length ≤ LIMIT := by decide
-    have := (term_all env ctx fuel).chain [main] false 0 T.layout [[]] (by simp) (by simp) (by simp) hl
+    have := (term_all env ctx fuel).chain [main] false 0 T.ae T.layout [[]] (by simp) (by simp) (by simp) hl
       (by simpa using hfuel)
     intro e he
     simp only [] at he
-    cases hr : (specAll env ctx fuel).chain [main] false 0 T.layout [[]] with
+    cases hr : (specAll env ctx fuel).chain [main] false 0 T.ae T.layout [[]] with
     | error e' => rw [hr] at he; cases he; exact this.1 _ hr
     | ok r => rw [hr] at he; cases he
 
@@ -200,7 +200,7 @@ theorem cycle_is_detected_error (env : Env) (ctx : Frame) (henv : EnvOK env)
   unfold specRender
   have hT : env[main]? = some env[main] := List.getElem?_eq_getElem hmain
   rw [hT]
-  have := cycle_detected_spec env ctx hall env.length fuel [main] false 0 env[main].layout [[]]
+  have := cycle_detected_spec env ctx hall env.length fuel [main] false 0 env[main].ae env[main].layout [[]]
     (by simp) (by simp) (by simp) (by simp) hfuel (hall _ (List.getElem_mem hmain))
   rcases this with h | h <;> simp [h]
 
@@ -221,10 +221,10 @@ theorem include_cycle_errors (env : Env) (ctx : Frame) (henv : EnvOK env)
     (hall : ∀ T ∈ env, includesAfterText env T.layout = true) (main fuel : Nat)
     (hmain : main < env.length) :
     (∃ e, render env ctx fuel main = .error e ∧ IncErr e) ∧
-    (W env.length 2 + env.length + 1 ≤ fuel →
+    (W env.length 2 + env.length + 2 ≤ fuel →
       ∃ j, render env ctx fuel main = .error (List.replicate j Kind.badInclude ++ [.invalidOperation])) := by
   have hT : env[main]? = some env[main] := List.getElem?_eq_getElem hmain
-  obtain ⟨e, he, hie⟩ := include_cycle_spec env ctx hall fuel main hmain _ hT false 0 [[]]
+  obtain ⟨e, he, hie⟩ := include_cycle_spec env ctx hall fuel main hmain _ hT false 0 env[main].ae [[]]
   have hr : render env ctx fuel main = .error e := by
     rw [blocks_refine_spec env ctx fuel main henv]
     unfold specRender
@@ -288,13 +288,33 @@ theorem include_first_existing (env : Env) (rec : Rec) (cur : Option Nat) (disc 
     performInclude env rec cur disc ign outer (missing ++ t :: more) false st =
       if outer + INCLUDE_COST + st.frames.length > LIMIT then .error [.invalidOperation]
       else
-        match rec cur disc false (outer + INCLUDE_COST) T.layout
+        match rec cur disc false (outer + INCLUDE_COST) T.ae T.layout
             { st with blocks := prepare T.blocks, depth := fun _ => 0, loaded := [] } with
         | .error e => .error (.badInclude :: e)
         | .ok (o, st') =>
           .ok (o, { blocks := st.blocks, depth := st.depth, loaded := st.loaded,
                     frames := st'.frames.take st.frames.length }) :=
   performInclude_first env rec cur disc ign outer missing more t T hmiss hT false st
+
+/-- the auto-escape mode across template boundaries: an included template runs in the mode its
+    own name selects (`T.ae` in `include_first_existing`), not in the includer's current mode —
+    an html page escapes `{{ v0 }}` itself while the text note it includes does not, a text mail
+    including an html card gets the card escaped, and an `{% autoescape %}` block around the
+    include tag does not leak into the included template -/
+example : render [ { layout := [.emitVar 0, .incl [1] false], blocks := [], ae := .html },
+                   { layout := [.emitVar 0], blocks := [], ae := .none } ] [(0, .str "a<b")] 8 0
+    = .ok ["a&lt;b", "a<b"] := by decide +kernel
+example : render [ { layout := [.emitVar 0, .incl [1] false], blocks := [], ae := .none },
+                   { layout := [.emitVar 0], blocks := [], ae := .html } ] [(0, .str "a<b")] 8 0
+    = .ok ["a<b", "a&lt;b"] := by decide +kernel
+example : render [ { layout := [.autoesc .html [.emitVar 0, .incl [1] false]], blocks := [], ae := .none },
+                   { layout := [.emitVar 0], blocks := [], ae := .json } ] [(0, .str "a<b")] 8 0
+    = .ok ["a&lt;b", "\"a<b\""] := by decide +kernel
+/-- … whereas the parent's layout reached through `extends`, block bodies and `super()` keep the
+    mode of the template that was rendered -/
+example : render [ { layout := [.extends true 1, .callBlock 0], blocks := [(0, [.emitVar 0, .super])], ae := .none },
+                   { layout := [.emitVar 0, .callBlock 0], blocks := [(0, [.emitVar 0])], ae := .html } ]
+    [(0, .str "a<b")] 8 0 = .ok ["a<b", "a<b", "a<b"] := by decide +kernel
 
 def incEnv : Env :=
   [ { layout := [.setVar 1 "L", .incl [9, 1, 2] false], blocks := [] },
@@ -311,20 +331,20 @@ example : render incEnv [] 10 0 = .ok ["<x:", "L", ">"] := by decide +kernel
     importer's frames and render context — and neither changes anything else in the state.
     (`hd`: the import stays below the recursion limit.) -/
 theorem import_exports_toplevel (env : Env) (ctx : Frame) (f : Nat) (cur : Option Nat) (d0 e0 : Bool)
-    (outer : Nat) (parent : Option (List Item)) (t : Nat) (T : Template) (hT : env[t]? = some T)
+    (outer : Nat) (ae : AE) (parent : Option (List Item)) (t : Nat) (T : Template) (hT : env[t]? = some T)
     (hs : T.layout.all Item.isAssign = true) (rest : List Item) (st : St)
     (hd : outer + INCLUDE_COST + (st.frames.length + 1) ≤ LIMIT) :
-    (∀ v, stepItems ⟨env, ctx, cur, d0, e0, outer⟩ (evalImpl env ctx (f + 1)) parent (.importAs t v :: rest) st =
-        stepItems ⟨env, ctx, cur, d0, e0, outer⟩ (evalImpl env ctx (f + 1)) parent rest
+    (∀ v, stepItems ⟨env, ctx, cur, d0, e0, outer, ae⟩ (evalImpl env ctx (f + 1)) parent (.importAs t v :: rest) st =
+        stepItems ⟨env, ctx, cur, d0, e0, outer, ae⟩ (evalImpl env ctx (f + 1)) parent rest
           { st with frames := store st.frames v (.module (dedupKeys (assigns T.layout []))) }) ∧
     (∀ name alias,
-        stepItems ⟨env, ctx, cur, d0, e0, outer⟩ (evalImpl env ctx (f + 1)) parent (.fromImport t name alias :: rest) st =
-        stepItems ⟨env, ctx, cur, d0, e0, outer⟩ (evalImpl env ctx (f + 1)) parent rest
+        stepItems ⟨env, ctx, cur, d0, e0, outer, ae⟩ (evalImpl env ctx (f + 1)) parent (.fromImport t name alias :: rest) st =
+        stepItems ⟨env, ctx, cur, d0, e0, outer, ae⟩ (evalImpl env ctx (f + 1)) parent rest
           { st with frames := store st.frames alias ((lookupVal name (assigns T.layout [])).getD .undef) }) ∧
     (∀ name, T.layout.all (fun it => !assignsVar name it) = true →
         lookupVal name (assigns T.layout []) = none) := by
-  refine ⟨fun v => importAs_step env ctx f cur d0 e0 outer parent t v T hT hs rest st hd,
-    fun name alias => fromImport_step env ctx f cur d0 e0 outer parent t name alias T hT hs rest st hd, ?_⟩
+  refine ⟨fun v => importAs_step env ctx f cur d0 e0 outer ae parent t v T hT hs rest st hd,
+    fun name alias => fromImport_step env ctx f cur d0 e0 outer ae parent t name alias T hT hs rest st hd, ?_⟩
   intro name h
   rw [lookup_assigns_other name T.layout [] h]
   rfl
@@ -335,17 +355,17 @@ theorem import_exports_toplevel (env : Env) (ctx : Frame) (f : Nat) (cur : Optio
     (a later assignment of the same name wins) — the imported template is rendered as an
     inheritance chain of its own into the fresh frame. -/
 theorem import_of_extending_template (env : Env) (ctx : Frame) (henv : EnvOK env) (f : Nat)
-    (cur : Option Nat) (d0 e0 : Bool) (outer : Nat) (parent : Option (List Item))
+    (cur : Option Nat) (d0 e0 : Bool) (outer : Nat) (ae : AE) (parent : Option (List Item))
     (t p v : Nat) (T P : Template) (pre post : List Item)
     (hT : env[t]? = some T) (hP : env[p]? = some P) (hl : T.layout = pre ++ .extends true p :: post)
     (hpre : pre.all Item.isAssign = true) (hpost : post.all Item.isAssign = true)
     (hpl : P.layout.all Item.isAssign = true) (rest : List Item) (st : St)
     (hd : outer + INCLUDE_COST + (st.frames.length + 1) ≤ LIMIT) :
-    stepItems ⟨env, ctx, cur, d0, e0, outer⟩ (evalImpl env ctx (f + 2)) parent (.importAs t v :: rest) st =
-      stepItems ⟨env, ctx, cur, d0, e0, outer⟩ (evalImpl env ctx (f + 2)) parent rest
+    stepItems ⟨env, ctx, cur, d0, e0, outer, ae⟩ (evalImpl env ctx (f + 2)) parent (.importAs t v :: rest) st =
+      stepItems ⟨env, ctx, cur, d0, e0, outer, ae⟩ (evalImpl env ctx (f + 2)) parent rest
         { st with frames := (store st.frames v
             (Val.module (dedupKeys (assigns P.layout (assigns post (assigns pre [])))))) } :=
-  importAs_extending_step env ctx henv f cur d0 e0 outer parent t p v T P pre post hT hP hl hpre hpost hpl
+  importAs_extending_step env ctx henv f cur d0 e0 outer ae parent t p v T P pre post hT hP hl hpre hpost hpl
     rest st hd
 
 example : render
